@@ -67,7 +67,8 @@ FIX_COMMITS = ['6dbd058 fix: with_prec rounds negative values symmetrically (C07
                'c977df5 fix: DivAssign<integer> panics on a zero divisor (C08)',
                'beb88f2 fix: equality no longer overflows when adding the carry (C02)',
                '49ca308 fix: inverse_with_context exchanges Floor and Ceiling for negative values (C12)',
-               '343238e fix: parser rejects a sign character after the decimal point (C05)']
+               '343238e fix: parser rejects a sign character after the decimal point (C05)',
+               '45ab761 fix: 1 / 0 panics for a primitive one over a zero decimal (C08)']
 NOTES = ('Contract-based deductive verification (Verus) of functions re-extracted from /repo on every run; '
          'see DESIGN.md.  exit 2 = undecided because of the machinery (never a violation).')
 
@@ -129,14 +130,14 @@ prop('C07', units=['prec', 'round', 'digits', 'context', 'config', 'add', 'core'
      technique=_TECH)
 
 prop('C08', units=['div', 'prim_div', 'inverse', 'digits', 'core', 'config', 'pow10', 'derived', 'conv'], level='proof',
-     hooks=[_h.kani_hook(['a1_digit_estimate'])],
+     hooks=[_h.kani_hook(['a1_digit_estimate']), _h.replay_hook([dict(args=['one_div_zero'], what='1 / 0 must panic'), dict(args=['div_assign_zero', '5'], what='x /= 0 must panic')])],
      level_text=('Verus proves on the real body of impl_division (sign recursion, shift loop, digit loop, final rounding) that the result is '
                  'sign * (floor(E/|d|) rounded half-up on the remainder) with E = |n|*10^(S-s0), that digits are dropped only once the quotient has '
                  'max_precision digits (so a quotient that terminates earlier is returned exactly), loop termination, and freedom from i64 overflow; '
                  'and for the four decimal/decimal Div impls: a return implies a non-zero divisor (the intended panic is modelled as divergence), the '
                  'zero-numerator / unit-divisor / equal-integers shortcuts are exact, otherwise impl_division is called with the configured precision; '
                  'for all ten primitive integer types, by value and by reference, on either side and as /=: +-1 and +-2 are exact (identity / negation / exact half), '
-                 '1/x routes to inverse(), everything else is the decimal division of the converted integer, and a return implies a non-zero divisor (after the fix: commit for /=)'),
+                 '1/x routes to inverse(), everything else is the decimal division of the converted integer, and a return implies a non-zero divisor in EVERY one of these forms, 1 / x included (after two fix: commits, for /= 0 and for 1 / 0)'),
      level_note=_NOTE_COMMON + ' get_rounding_term relies on float axiom A1. Float divisor forms (f32/f64 arms of impl_div_for_primitive) are not under contract (float comparisons are opaque to Verus).',
      technique=_TECH)
 
